@@ -426,7 +426,8 @@ func (fv *FnV) exec(st *State, s ast.Stmt) *State {
 			}
 		}
 	}
-	if _, isRet := s.(*ast.ReturnStmt); isRet {
+	_, isBranch := s.(*ast.BranchStmt)
+	if _, isRet := s.(*ast.ReturnStmt); isRet || isBranch {
 		// asserts anchored on a return statement are checked in the state just before it
 		if acs, ok := fv.assertAt[s]; ok && !st.dead && len(fv.frames) == 1 {
 			for _, ac := range acs {
